@@ -65,3 +65,33 @@ Proof.
   - destruct (result_of (k_entry c) (k_out c)); reflexivity.
   - destruct (is_allow (k_entry c)); reflexivity.
 Qed.
+
+(* ---- the wrapper judgement.  wcall_prop carries its own table of failures (spec_is_failure,
+   written out independently of WrapModel); it accepts the model's own record for every call
+   site, admitted or rejected, every context life and every downstream outcome - so the two
+   tables agree, and an implementation that agrees with the model cannot be flagged here. *)
+Definition wobs_of (k : wkind) (d : derr) (r : wrapres) : wobs :=
+  mkWO (wr_invoked r) (wr_succ r) (wr_fail r) (wr_drop r) (real_seen k d (wr_seen r)).
+
+Lemma grpc_code_tables_agree : forall c,
+  existsb (Z.eqb c) [4; 8; 12; 13; 14; 15] = grpc_failure_code c.
+Proof.
+  intros c. unfold grpc_failure_code. cbn [existsb].
+  destruct (c =? 4), (c =? 8), (c =? 12), (c =? 13), (c =? 14), (c =? 15); reflexivity.
+Qed.
+
+Lemma grpc_code_tables_agree' : forall c,
+  (c =? 4) || ((c =? 8) || ((c =? 12) || ((c =? 13) || ((c =? 14) || ((c =? 15) || false))))) = grpc_failure_code c.
+Proof. exact grpc_code_tables_agree. Qed.
+
+Lemma wcall_prop_accepts_model : forall k rej x d,
+  wcall_prop (mkWC k rej x d) (wobs_of k d (wrapx k rej x d)) = true.
+Proof.
+  intros k rej x d.
+  destruct k as [| | | | | | | | |m u|]; try destruct m; try destruct u; destruct rej; destruct x; destruct d;
+    try reflexivity;
+    unfold wcall_prop, wobs_of, wrapx, wrap; cbn;
+    rewrite ?grpc_code_tables_agree';
+    try (destruct (grpc_failure_code code); reflexivity);
+    try (destruct ((1 <=? i) && (i <=? n)); reflexivity).
+Qed.
